@@ -55,11 +55,17 @@ Definition raft_import (keep : nat) (ord : pstate -> list entry) (ls : list jlin
   | Some st => (snapshot_save keep (marshal ord st) d1, ImpOk)
   end.
 
-(* crdtStateManager.ImportState: crdt.Clean on the store, an offline batching state, importState, Commit.
-   Without the Commit nothing of the batch is written: a failed import leaves the cleaned (empty) store.
-   As written, an empty stream reaches Commit with nothing batched, and go-ds-crdt v0.1.21 dereferences its nil
-   current delta there (publishDelta -> addDAGNode): the process dies after the Clean. *)
+(* crdtStateManager.ImportState: crdt.Clean on the store, an offline batching state, importState, Commit - the Commit only
+   when importState added at least one pin (fix-S33: an empty batch is not committed; the cleaned store is the result).
+   Without the Commit nothing of the batch is written: a failed import leaves the cleaned (empty) store. *)
 Definition crdt_import (ls : list jline) (s : pstate) : pstate * imp_res :=
+  match import_lines ls [] with
+  | None => ([], ImpErr)
+  | Some st => (st, ImpOk)
+  end.
+(* the code before fix-S33: an empty stream reached Commit with nothing batched, and go-ds-crdt v0.1.21 dereferences its nil
+   current delta there (publishDelta -> addDAGNode): the process died after the Clean *)
+Definition crdt_import_before_fix (ls : list jline) (s : pstate) : pstate * imp_res :=
   match import_lines ls [] with
   | None => ([], ImpErr)
   | Some st => match ls with [] => ([], ImpCrash) | _ => (st, ImpOk) end
